@@ -72,7 +72,7 @@ def cases(draw, tier):
     picks = [[draw(st.integers(0, 11)) for _ in range(14)] for _ in range(norders)]
     vals = [draw(st.integers(0, 5)) for _ in range(24)]
     return {'spec': spec, 'tree': tree, 'picks': picks, 'vals': vals, 'wrong': draw(st.integers(0, 10 ** 6)),
-            'ids': draw(st.sampled_from(['none', 'all', 'mixed']))}
+            'ids': draw(st.sampled_from(['none', 'all', 'mixed'])), 'share': draw(st.booleans())}
 
 
 def strategy(tier):
@@ -245,22 +245,42 @@ def check(case, ctx):
         if name not in prov_val:
             prov_val[name] = vals[len(prov_val) % len(vals)] % spec['node_labels'][label]
         return prov_val[name]
+    # share: equal sub-derivations (same tree, same external values) are represented by ONE FGGDerivation object that is the
+    # child of several nonterminal edges (a derivation is a value; nothing says its sub-objects must be distinct)
+    share = bool(case.get('share'))
+    built = {}
     def mk(tree, path, ext_names):
+        d, internals = mk2(tree, path, ext_names)
+        return d
+    def mk2(tree, path, ext_names):
         ri, kids = tree
         r = spec['rules'][ri]; rinfo = info['rules'][ri]
+        key = (repr(tree), tuple(value_of(n, r['nodes'][p]) for n, p in zip(ext_names, r['ext'])))
+        if share and key in built:
+            d, internals = built[key]
+            for rel, j, v in internals:
+                prov_val[(path + rel, j)] = v
+            ctx.label('shared-subderivation-object')
+            return d, internals
+        internals = []
         nm = {}
         for j in range(len(r['nodes'])):
             nm[j] = (path, j)
         for k, p in enumerate(r['ext']):
             nm[p] = ext_names[k]
         asst = {rinfo['nodes'][j]: value_of(nm[j], r['nodes'][j]) for j in range(len(r['nodes']))}
+        for j in range(len(r['nodes'])):
+            if j not in r['ext']: internals.append(((), j, asst[rinfo['nodes'][j]]))
         children = {}
         ci = 0
         for k, e in enumerate(r['edges']):
             if e['label'] in spec['nonterminals']:
-                children[rinfo['edges'][k]] = mk(kids[ci], path + (k,), [nm[a] for a in e['att']])
+                children[rinfo['edges'][k]], sub = mk2(kids[ci], path + (k,), [nm[a] for a in e['att']])
+                internals.extend(((k,) + rel, j, v) for rel, j, v in sub)
                 ci += 1
-        return fggs.FGGDerivation(fgg, rinfo['rule'], asst, children)
+        d = fggs.FGGDerivation(fgg, rinfo['rule'], asst, children)
+        built[key] = (d, internals)
+        return d, internals
     root = spec['rules'][tree[0]]
     deriv = mk(tree, (), [((), p) for p in root['ext']])
     try:
